@@ -78,7 +78,9 @@ func verifTimerCheckDur(d time.Duration) {
 		return
 	}
 	if verifTimerDl > 0 {
-		verifAssert(int64(d) == verifTimerDl-verifClock, verifTimerChk+"/timer-armed-with-wrong-duration")
+		// between "deadline - latest clock reading" and "deadline - first clock reading" of the
+		// call (the same value when the code reads the clock once)
+		verifAssert(int64(d) >= verifTimerDl-verifClock && int64(d) <= verifTimerDl-verifClockFirst, verifTimerChk+"/timer-armed-with-wrong-duration")
 	} else {
 		verifAssert(int64(d) == verifTimerTo, verifTimerChk+"/timer-armed-with-wrong-duration")
 	}
@@ -113,6 +115,8 @@ func verifTimerFire(vt *verifTimer) {
 }
 
 var verifClock int64
+var verifClockFirst int64 // first reading since the harness started
+var verifClockRead bool
 
 func verifTimeNow() time.Time { return time.Time{} }
 
@@ -122,6 +126,10 @@ func verifUnixNano(t time.Time) int64 {
 	verifAssume(d >= 0)
 	verifAssume(d <= 1<<40)
 	verifClock += d
+	if !verifClockRead {
+		verifClockRead = true
+		verifClockFirst = verifClock
+	}
 	return verifClock
 }
 
